@@ -8,7 +8,7 @@ LEVEL = 'proof'
 EXPLANATION = ('K1: ExpressionTokenTranslator._group (the regrouping of the right-nested operand chain; three nested loops, a '
                'dictionary of waiting levels) returns, for every chain, the precedence tree of the chain - every operand and '
                'operator kept in order, at every operation the left root not weaker and the right root strictly stronger than the '
-               'operation (so one level groups from the left, * / bind tighter than + - than & than comparisons) - given the seven '
+               'operation (so one level groups from the left, * / bind tighter than + - than & than comparisons) - given the nine '
                'shapes of an ExpressionToken and the level table of the eleven operators (K2, exhaustive). K-S on the real '
                'translators: each Excel operator is emitted as the Python operator / helper of the same meaning, operands in order, '
                'brackets re-emitted, x% as x/100 normalised, a sign directly before its operand; PARAM (K3): translators only '
@@ -45,6 +45,8 @@ TABLE += [
     ('mixed.cmp_cmp', f'={P1}<>{P2}={P3}', f"self._compare('==', self._compare('!=', {P1}, {P2}), {P3})", 'comparisons group from the left'),
     ('percent.in_product', f'={P1}/{P2}%*{P3}',
      f'{P1} / self._normalize_float_number({P2} / 100) * {P3}', 'a percentage is an operand; what follows it is not wrapped'),
+    ('percent.bracketed', f'=({P1}+{P2})%', f'self._normalize_float_number(({P1} + {P2}) / 100)', 'percent signs after a bracketed expression'),
+    ('percent.twice', f'={P1}%%', f'self._normalize_float_number({P1} / 100 ** 2)', 'every percent sign divides by 100'),
     ('percent.emit', f'={P1}%', f'self._normalize_float_number({P1} / 100)', 'x% is x/100 to 15 significant digits'),
     ('operand.cell', '=A1+B2', 'CELL(0, 0, 0) + CELL(0, 1, 1)', 'operands from the workbook go through _cell_preprocessor '
      '(so overrides are seen)'),
@@ -109,8 +111,9 @@ def _group_facts(res):
     es, oc = g['expression_sets'], g['operator_carriers']
     o.count = len(es['got']) + len(oc['carried'])
     o.status = 'discharged' if es['ok'] and oc['ok'] else 'failed'
-    o.detail = ('ExpressionToken has exactly the seven shapes the chain model of _group assumes (operand / percentage / bracketed '
-                'expression, optionally followed by an operator and an expression; a sign followed by an expression), and an '
+    o.detail = ('ExpressionToken has exactly the nine shapes the chain model of _group assumes (operand / percentage / bracketed '
+                'expression with or without percent signs, optionally followed by an operator and an expression; a sign followed by an '
+                'expression), and an '
                 'OperatorToken carries one of the eleven operator tokens that have a level' if o.status == 'discharged' else
                 f'token sets differ from the chain model: {es["got"]}; operator carriers: {oc["carried"]}')
     res.add(o)
